@@ -138,8 +138,12 @@ def cases(draw):
         vals = st.none()
     values = draw(st.lists(vals, min_size=1, max_size=4))
     reads = draw(st.lists(st.integers(0, 2), min_size=len(values), max_size=len(values)))
+    # history of the path: it may already hold something another program / another store kind left there
+    foreign = None
+    if not mounted and draw(st.integers(0, 4)) == 0:
+        foreign = draw(st.sampled_from(["", "old report\r\n", "{\"a\": 1}", "\x80\x04N.", "\ufeffx"]))
     return {"kind": kind, "mounted": mounted, "pathlib": pathlib_path, "encoding": encoding,
-            "values": values, "reads": reads}
+            "values": values, "reads": reads, "foreign": foreign}
 
 
 JSON_VALUES = _json_values()
@@ -209,16 +213,23 @@ def check_case(ctx, case, record=True):
                    "pathlib" if case["pathlib"] else "strpath", f"enc:{case['encoding']}"]
         if any(isinstance(v, str) and ("\r" in v) for v in case["values"]):
             classes.append("has_CR")
+        if case.get("foreign") is not None:
+            classes.append("path_held_foreign_content")
         ctx.case(case, _nontrivial(case), classes)
     directory = tempfile.mkdtemp(prefix="c12-")
     try:
         store = make_store(case, directory)
+        if case.get("foreign") is not None:
+            with open(os.path.join(directory, "value.dat"), "wb") as f:
+                f.write(case["foreign"].encode("utf-8", "surrogatepass"))
         try:
             t = store.get_modified_time()
         except Exception as e:
             ctx.violation(case, f"get_modified_time on an empty store raised {e!r}")
-        if t is not None:
+        if t is not None and case.get("foreign") is None:
             ctx.violation(case, f"get_modified_time before any write is {t!r}, expected None")
+        if t is None and case.get("foreign") is not None:
+            ctx.violation(case, "get_modified_time is None although the path holds a file")
         last = None
         for value, nreads in zip(case["values"], case["reads"]):
             try:
